@@ -90,7 +90,7 @@ def scen(name, cfg, ops):
 def fam_breach(rng, cfg=CFG_A):
     """C01/C02: appointments of several kinds, blocks with several breaches, same-block penalty, verdicts."""
     out = []
-    kinds = ["valid", "valid_big", "garbled", "wrongkey"]
+    kinds = ["valid", "valid_big", "garbled", "wrongkey", "trailing"]
     for variant in range(12):
         ops = [reg(1), reg(2)]
         known = []
@@ -105,6 +105,9 @@ def fam_breach(rng, cfg=CFG_A):
                         b = valid(i, rng.choice([2, 3, 4, 5]))
                     elif k == "garbled":
                         b = garbled(rng.choice([1, 17, 300, 2048, 2049, 5000]))
+                    elif k == "trailing":
+                        # authenticates under the dispute id, but the plaintext is a penalty followed by extra bytes / cut short
+                        b = {"kind": rng.choice(["trailing", "truncated"]), "d": D(i), "p": P(i, 1), "extra": rng.choice([1, 9]), "cut": rng.choice([1, 4])}
                     else:
                         j = i % nd + 1
                         b = valid(j, 1)   # encrypted under another dispute's id: does not decrypt under this locator
@@ -143,7 +146,7 @@ def fam_late(rng, cfg=CFG_A):
     """C01: appointment arriving after its dispute was confirmed: cache window boundary (ages 0,1,5,6,7)."""
     out = []
     for age in (0, 1, 4, 5, 6, 7):
-        for kind in ("valid", "garbled", "rejected", "in_mempool", "resolved"):
+        for kind in ("valid", "garbled", "rejected", "in_mempool", "resolved") + (("trailing",) if age in (0, 5) else ()):
             ops = [reg(1), reg(2), mine([D(1)])]
             if age:
                 ops.append(ff(age, "each" if age < 3 else "end"))
@@ -153,7 +156,8 @@ def fam_late(rng, cfg=CFG_A):
                 ops.append({"op": "mempool_add", "tx": P(1)})
             if kind == "resolved":
                 ops.append({"op": "verdict", "tx": P(1), "v": "res"})
-            ops.append(add(1, 1, garbled(400) if kind == "garbled" else valid(1)))
+            ops.append(add(1, 1, garbled(400) if kind == "garbled" else
+                           ({"kind": "trailing", "d": D(1), "p": P(1), "extra": 5} if kind == "trailing" else valid(1))))
             ops += [get(1, 1), sub(1)]
             # a second user with the same locator afterwards
             ops.append(add(2, 1, valid(1, 1)))
@@ -189,6 +193,8 @@ def fam_reorg(rng, cfg=CFG_A, deep=False):
                 else:
                     above = depth
                     rdepth = depth
+                if rdepth > cfg["idx"]:
+                    continue      # reorgs deeper than the index size are outside the quantifier of C04 / C19
                 if above:
                     ops.append(ff(above, "each" if above < 4 else "end"))
                 removed_penalty = pos != "above"
@@ -213,6 +219,20 @@ def fam_reorg(rng, cfg=CFG_A, deep=False):
                 ops.append(ff(8, "each"))
                 ops += [get(1, 1), get(2, 1), mine([D(2)]), get(1, 2), sub(1)]
                 out.append(scen("reorg-d%d-%s-%s" % (depth, pos, repl), cfg, ops))
+    return out
+
+
+def fam_midreorg(rng, cfg=CFG_A):
+    """C04/C19: a late appointment answered in the middle of a reorg (blocks disconnected, replacement blocks not yet
+    downloaded) whose penalty is already confirmed: the recorded height must be the true height of the confirming block."""
+    out = []
+    for depth in (1, 2, 3):
+        for age in (3, 4):
+            ops = [reg(1), reg(2), mine([D(1)]), mine([P(1, 1)]), ff(age - 1 + depth, "each"),
+                   {"op": "reorg", "depth": depth, "blocks": [[] for _ in range(depth + 1)]},
+                   {"op": "fault", "kind": "block", "offset": depth, "times": 1, "transient": True}, POLL,
+                   add(1, 1, valid(1, 1)), get(1, 1), add(2, 1, valid(1, 1)), POLL, get(1, 1), get(2, 1), ff(2, "each"), get(1, 1), sub(1)]
+            out.append(scen("midreorg-d%d-age%d" % (depth, age), cfg, ops))
     return out
 
 
@@ -731,4 +751,18 @@ def fam_conc(rng, tier="quick"):
                     mx, rnd))
     out.append(conc("conc-register-add-get", CFG_A, [reg(1), add(1, 1)], [{"op": "register", "u": 1}, cadd(1, 2), {"op": "get", "u": 1, "l": D(1)}],
                     pb, mx, rnd))
+    return out
+
+
+def fam_overloaded(rng, cfg=CFG_A, ms=14000):
+    """C01/C12: bitcoind answers one RPC with a bare HTTP 503 (no verdict about the transaction) while a breach is being
+    handled: the submission must be retried, never treated as a rejection."""
+    out = []
+    for at in (0, 1):
+        ops = [reg(1), add(1, 1, valid(1)), {"op": "fault", "kind": "http503", "at": [at]}, mine([D(1)], poll=False)]
+        ops += apoll("P1", ms) + [get(1, 1), sub(1), mine([P(1)], poll=False)] + apoll("P2", ms) + [get(1, 1)]
+        out.append(scen("overloaded-block-%d" % at, cfg, ops))
+    ops = [reg(1), mine([D(1)]), {"op": "fault", "kind": "http503", "at": [1]}, {"op": "spawn_add", "thread": "T1", "u": 1, "l": D(1), "blob": valid(1)},
+           {"op": "wait_flag", "reachable": False}, POLL, {"op": "join", "thread": "T1", "ms": ms}, {"op": "end_async"}, get(1, 1), sub(1)]
+    out.append(scen("overloaded-request", cfg, ops))
     return out
